@@ -51,6 +51,12 @@ MUT = [
     ('get_cells_area_end_exclusive', 'C01', True, [(TB, '            for row in self.traverse(start=y, end=t):\n                row_cells = row.get_cells(\n                    coord=(x, z),\n                    cell_type=cell_type,\n                    style=style,\n                    content=content,\n                )\n                lcells.append(row_cells)', '            for row in self.traverse(start=y, end=t):\n                row_cells = row.get_cells(\n                    coord=(x, z - 1 if z else z),\n                    cell_type=cell_type,\n                    style=style,\n                    content=content,\n                )\n                lcells.append(row_cells)')]),
     ('set_item_clone_after_touching_current', 'C01', True, [(EC, '    if clone:\n        new_item = item.clone\n    else:\n        new_item = item\n    if repeated_before >= 1:\n        # Update repetition\n        current_item._set_repeated(repeated_before)\n        target_idx += 1\n    else:\n        # Replacing the first occurence\n        vault.delete(current_item)\n    # Insert new element\n    vault.insert(new_item, position=target_idx)',
         '    if repeated_before >= 1:\n        # Update repetition\n        current_item._set_repeated(repeated_before)\n        target_idx += 1\n    else:\n        # Replacing the first occurence\n        vault.delete(current_item)\n    # Insert new element\n    if clone:\n        new_item = item.clone\n    else:\n        new_item = item\n    vault.insert(new_item, position=target_idx)')]),
+    # round 3: the named-range rule re-derived from the setter source
+    ('nr_a1_regex_unicode_digits', 'C07', True, [(TB, '        step = ""\n        for x in name:\n            if x in string.ascii_letters and step in ("", "A"):\n                step = "A"\n                continue\n            elif step in ("A", "A1") and x in string.digits:\n                step = "A1"\n                continue\n            else:\n                step = ""\n                break\n        if step == "A1":\n', '        if re.fullmatch(r"[A-Za-z]+\\d+", name):\n')]),
+    ('nr_first_char_isdigit', 'C07', True, [(TB, '        if name[0] in string.digits:\n            raise ValueError("Name must not start with a digit.")', '        if name[0].isdigit():\n            raise ValueError("Name must not start with a digit.")')]),
+    ('rw_nr_a1_regex_ascii', 'C07', False, [(TB, '        step = ""\n        for x in name:\n            if x in string.ascii_letters and step in ("", "A"):\n                step = "A"\n                continue\n            elif step in ("A", "A1") and x in string.digits:\n                step = "A1"\n                continue\n            else:\n                step = ""\n                break\n        if step == "A1":\n', '        if re.fullmatch(r"[A-Za-z]+[0-9]+", name):\n')]),
+    ('rw_nr_scanner_renamed', 'C07', False, [(TB, '        step = ""\n        for x in name:\n            if x in string.ascii_letters and step in ("", "A"):\n                step = "A"\n                continue\n            elif step in ("A", "A1") and x in string.digits:\n                step = "A1"\n                continue\n            else:\n                step = ""\n                break\n        if step == "A1":\n', '        state = ""\n        for ch in name:\n            if ch in string.ascii_letters and state in ("", "L"):\n                state = "L"\n                continue\n            elif state in ("L", "LD") and ch in "0123456789":\n                state = "LD"\n                continue\n            else:\n                state = ""\n                break\n        if state == "LD":\n')]),
+    ('table_name_strip_ascii_only', 'C07', True, [(TB, '    name = name.strip()\n    if not name:\n        raise ValueError("Empty name not allowed.")', '    name = name.strip(" \\t\\r\\n")\n    if not name:\n        raise ValueError("Empty name not allowed.")')]),
     # behaviour-preserving rewrites
     ('rw_insert_map_once_insert', 'C01', False, [(EC, '    new_map = orig_map[:odf_idx]\n    new_map.append(juska)\n    new_map.extend([(x + repeated) for x in orig_map[odf_idx:]])\n    return new_map',
                                                   '    new_map = [(x + repeated) for x in orig_map]\n    new_map[:odf_idx] = orig_map[:odf_idx]\n    new_map.insert(odf_idx, juska)\n    return new_map')]),
